@@ -96,15 +96,20 @@ func RunOnce(cfg *Config, prefix []int, body func()) *Exec {
 		cfg.Horizon = 20000
 	}
 	w := &World{epoch: epoch, prefix: prefix, cfg: cfg, exited: make(chan struct{}), doneCh: make(chan struct{}),
-		closed: map[unsafe.Pointer]struct{}{}, covered: map[string]int{}, states: map[uint64]struct{}{}, traceOps: cfg.TraceOps}
+		traceOps: cfg.TraceOps}
 	cur = w
 	w.main = w.newThread("main", body)
 	w.main.label = "start"
 	w.cur = w.main
 	w.main.resume <- struct{}{}
 	<-w.doneCh
+	RaceAcquire(unsafe.Pointer(&w.endSync))
 	cur = nil
-	x := &Exec{Out: w.out, Points: w.points, Trace: w.trace, Covered: w.covered, UserData: w.userData, Now: time.Duration(w.now)}
+	cov := map[string]int{}
+	for _, c := range w.covered {
+		cov[c.tag] = c.n
+	}
+	x := &Exec{Out: w.out, Points: w.points, Trace: w.trace, Covered: cov, UserData: w.userData, Now: time.Duration(w.now)}
 	x.Out.Steps = w.steps
 	x.Choices = make([]int, len(w.points))
 	for i, p := range w.points {
@@ -113,11 +118,11 @@ func RunOnce(cfg *Config, prefix []int, body func()) *Exec {
 			x.Cost += int(p.Costs[p.Chosen])
 		}
 	}
-	lastStates = w.states
+	lastStates = &w.states
 	return x
 }
 
-var lastStates map[uint64]struct{}
+var lastStates *hashSet
 
 // Explore enumerates every execution of body whose deviation cost is at most cfg.Bound (iterating the bound from 0
 // upwards) and calls check on each. check returns an outcome class (for the distinct-outcomes counter); violations
@@ -159,9 +164,7 @@ func Explore(cfg Config, body func(), check func(x *Exec) string) *Stats {
 				if len(x.Points) > st.MaxDepth {
 					st.MaxDepth = len(x.Points)
 				}
-				for k := range lastStates {
-					states[k] = struct{}{}
-				}
+				lastStates.each(func(k uint64) { states[k] = struct{}{} })
 				for k, v := range x.Covered {
 					st.Covered[k] += int64(v)
 				}
